@@ -145,6 +145,14 @@ def mk(case, dtype=float):
     return big[crits].loc[alts]
 
 
+SALT = [0]
+
+
+def set_salt(x):
+    """Per-case entropy for the construction variants (the parameter space of one class is small)."""
+    SALT[0] = zlib.crc32(repr(x).encode())
+
+
 VARIANTS = ("direct", "direct", "copy", "rebuild", "positional", "fresh_strings", "numpy_scalars", "pickle", "copy_kw")
 
 
@@ -159,7 +167,7 @@ def variant(cls, params, key, first_positional=None):
     if os.environ.get("SKC_MK_ROUTES", "1") == "0":
         return cls(**params) if first_positional is None else cls(first_positional, **params)
     args = () if first_positional is None else (first_positional,)
-    route = VARIANTS[zlib.crc32(json.dumps([cls.__name__, key], sort_keys=True, default=str).encode()) % len(VARIANTS)]
+    route = VARIANTS[zlib.crc32(json.dumps([cls.__name__, key, SALT[0]], sort_keys=True, default=str).encode()) % len(VARIANTS)]
     base = cls(*args, **params)
     try:
         if route == "copy":
